@@ -118,8 +118,70 @@ def vec_plan(Query, pid, tier):
                                             input_cfg(vec_cfg(1, 2, 'X', ak=2, cls=0))], timeout=900)
     return q
 
+ALIAS_OPS = ['alias_push_back', 'alias_emplace_back', 'alias_insert_one', 'alias_emplace', 'alias_insert_n', 'alias_resize', 'alias_assign_n', 'alias_append_n']
+LIMIT_OPS = ['lim_push_back', 'lim_insert_one', 'lim_insert_n', 'lim_insert_range', 'lim_append_n']
+
+def limit_queries(Query, tier):
+    qs = []
+    cfgs = [(1, 'uint8_t'), (0, 'uint8_t')] + ([] if tier == 'quick' else [(1, 'int8_t'), (0, 'int8_t')])
+    for kind, s in cfgs:
+        d = {'VF_KIND': kind, 'VF_S': s}
+        nm = '%s_B_LA_%s' % ('sv4' if kind else 'vec', s.replace('uint', 'u').replace('int', 'i').replace('_t', ''))
+        for op in LIMIT_OPS:
+            qs.append(Query('%s.%s' % (op, nm), 'vec_limits.cpp', 'h_' + op, defs=d, arena=(2, 256), unwind=3, timeout=600, mem_gb=4,
+                            symbolic='size and capacity within 5 of the size_type maximum, arbitrary contents, position, count, value',
+                            bounds=dict(size_type=s, size='max-5..max', note='copy loops behind the capacity check are proved unreachable by their unwinding assertions (unwind 3)')))
+    return qs
+
+def swap2_queries(Query, tier):
+    # (kind, N, size_type, allocator kind)
+    SV2 = (1, 2, 'uint8_t', 0); SV3 = (1, 3, 'uint32_t', 0); VEC = (0, 0, 'uint32_t', 0); VEC8 = (0, 0, 'uint8_t', 0); FCV = (2, 3, 'uint8_t', 0); VECSA = (0, 0, 'uint32_t', 1)
+    names = {SV2: 'sv2u8', SV3: 'sv3u32', VEC: 'vecu32', VEC8: 'vecu8', FCV: 'fcv3', VECSA: 'vecSAu32'}
+    if tier == 'quick':
+        pairs = [(SV2, VEC, 'B'), (VEC, SV2, 'B'), (SV2, SV3, 'B'), (SV2, FCV, 'B'), (FCV, VEC, 'B'), (VEC8, VEC, 'B'), (SV2, VECSA, 'B'), (SV2, VEC, 'X')]
+    else:
+        fl = [SV2, SV3, VEC, VEC8, FCV, VECSA]
+        pairs = [(a, b, 'B') for a in fl for b in fl if a != b] + [(SV2, VEC, 'X'), (VEC, SV2, 'X'), (SV2, SV3, 'X'), (SV2, FCV, 'X'), (FCV, SV3, 'X'), (SV2, SV3, 'R'), (FCV, VEC, 'R')]
+    qs = []
+    for a, b, e in pairs:
+        cmax = 4 if e == 'B' else 2
+        def maxsize(f, cls): return f[1] if f[0] == 2 or (f[0] == 1 and cls == 0) else (0 if cls == 0 else cmax)
+        for ca in ((0, 1) if a[0] != 2 else (0,)):
+            for cb in ((0, 1) if b[0] != 2 else (0,)):
+                d = {'VF_E': e, 'A_KIND': a[0], 'A_N': a[1], 'A_S': a[2], 'A_AK': a[3], 'A_CLS': ca, 'B_KIND': b[0], 'B_N': b[1], 'B_S': b[2], 'B_AK': b[3], 'B_CLS': cb,
+                     'VF_CMAX': cmax, 'VF_MAXM': cmax + 2}
+                if e != 'B': d['VF_NID'] = 20
+                sz = (((3 * cmax + 1) // 2 + 2) * ESZ[e] + 15) // 16 * 16
+                impossible = (a[0] == 2 and maxsize(b, cb) > a[1]) or (b[0] == 2 and maxsize(a, ca) > b[1])
+                qs.append(Query('swap2.%s_%s_%s_%s%s' % (names[a], names[b], e, 'IH'[ca], 'IH'[cb]), 'vec_swap2.cpp', 'h_swap2', defs=d, arena=(4, sz), unwind=cmax + 4, timeout=600,
+                                mem_gb=6 if e != 'B' else 3, symbolic='both operands: sizes, capacities, contents (state class fixed per query)',
+                                optional_reach=() if impossible else (2,),
+                                bounds=dict(size_max=cmax, capacity_max=cmax, impossible_exchange_reachable=impossible)))
+    return qs
+
 def plan(pid, tier, Query):
     quick = tier == 'quick'
+    if pid == 'C08':
+        fcv = [vec_cfg(2, 3, 'B', extra={'VF_USABLE': ''}), vec_cfg(2, 3, 'X', extra={'VF_USABLE': ''})] if quick else [vec_cfg(2, 3, 'B', extra={'VF_USABLE': ''}), vec_cfg(2, 3, 'X', extra={'VF_USABLE': ''}), vec_cfg(2, 2, 'R', extra={'VF_USABLE': ''}), vec_cfg(2, 4, 'W', extra={'VF_USABLE': ''})]
+        grow_ops = ['push_back_copy', 'push_back_move', 'emplace_back', 'insert_one_copy', 'insert_one_move', 'emplace', 'insert_n', 'insert_range_ptr', 'insert_range_fwd',
+                    'append_range_ptr', 'assign_range_fwd', 'insert_il', 'resize', 'resize_val', 'assign_n', 'reserve', 'append_n', 'append_n_val', 'access']
+        return limit_queries(Query, tier) + vec_queries(Query, grow_ops, fcv) + vec_queries(Query, ['access'], [vec_cfg(1, 2, 'B'), vec_cfg(0, 0, 'B', s='uint32_t')])
+    if pid == 'C10':
+        cfgs = [vec_cfg(1, 2, 'B'), vec_cfg(1, 2, 'X', ak=2, cls=0), vec_cfg(1, 2, 'X', ak=2, cls=1), vec_cfg(0, 0, 'R', s='uint32_t')]
+        if not quick: cfgs += [vec_cfg(0, 0, 'B', s='uint32_t'), vec_cfg(2, 3, 'X'), vec_cfg(2, 3, 'B'), vec_cfg(1, 3, 'R', ak=0), vec_cfg(1, 3, 'T3', ak=1, s='uint16_t'), vec_cfg(0, 0, 'X', ak=1, s='uint32_t')]
+        return vec_queries(Query, ALIAS_OPS, cfgs, timeout=600)
+    if pid == 'C13':
+        return swap2_queries(Query, tier)
+    if pid == 'C14':
+        R = {'VF_RELOC': ''}
+        cfgs = [vec_cfg(0, 0, 'X', ak=1, s='uint32_t', extra=R), vec_cfg(1, 2, 'B', extra=R), vec_cfg(1, 3, 'R', extra=R), vec_cfg(2, 3, 'R', extra=R)]
+        ops = ['push_back_copy', 'insert_n', 'erase_one', 'pop_back', 'reserve', 'shrink_to_fit', 'copy_ctor', 'move_ctor', 'clear', 'access', 'resize', 'assign_n']
+        if not quick:
+            cfgs += [vec_cfg(0, 0, 'B', s='uint32_t', extra=R), vec_cfg(2, 3, 'B', extra=R), vec_cfg(1, 4, 'W', ak=1, s='uint16_t', extra=R)]
+            ops = NONINPUT_OPS
+        qs = vec_queries(Query, ops, cfgs, timeout=600)
+        for q in qs: q.unwindset.update({'vf_memcpy.0': 48, 'vf_memset.0': 48}); q.name = 'reloc_' + q.name
+        return qs
     if tier == 'fsurvey':
         return (fs_queries(Query, FS_OPS, [fs_cfg(0, cmp=2, d=1, sh=1), fs_cfg(1, cmp=0), fs_cfg(2, n=6, cmp=3)] ) +
                 fs_queries(Query, ['lookup_transparent'], [fs_cfg(2, n=6, cmp=3)]) +
